@@ -9,7 +9,7 @@
 EXTENDS KeyParser, Json, IOUtils, SequencesExt
 CONSTANTS MaxFull, MaxLen
 VARIABLE x
-More(p) == TestRun(TextsOf(p), TRUE).more
+More(p) == TestRun(p, TRUE).more
 Ext(P, A) == UNION { {Append(p, a) : a \in A} : p \in {q \in P : More(q)} }
 \* after the parser has stopped one more line is appended: it must not be read any more
 DeadProbe == 29
